@@ -96,7 +96,16 @@ def model_file_value(path):
     return raw["job_name"], out
 
 
-def run_transition(workdir, tag, pv_jobs, model_in):
+# workflow names of the runs: plain, with blanks, with a dot (the name is the
+# key under which a loaded model is matched and the stem of the files)
+JOB_NAMES = ("x", "Users Service", "shop.checkout v2")
+
+
+def job_name_of(defn):
+    return JOB_NAMES[int(input_key(dsl.to_list(defn)), 16) % len(JOB_NAMES)]
+
+
+def run_transition(workdir, tag, pv_jobs, model_in, jname="x"):
     """one real pv2puml run with -om (and -im).  returns dict"""
     from tel2puml.otel_to_puml import otel_to_puml
     from tel2puml.tel2puml_types import PVPumlOptions, GlobalOptions
@@ -113,21 +122,26 @@ def run_transition(workdir, tag, pv_jobs, model_in):
     try:
         otel_to_puml(
             pv_to_puml_options=PVPumlOptions(
-                file_list=files, job_name="x", group_by_job_id=False),
+                file_list=files, job_name=jname, group_by_job_id=False),
             global_options=GlobalOptions(
                 input_puml_models=[model_in] if model_in else [],
                 output_puml_models=True),
             output_file_directory=out, components="pv2puml")
     except Exception as e:
         return {"status": "exc", "exc": type(e).__name__ + ": " + str(e)[:200]}
-    with open(os.path.join(out, "x.puml")) as f:
-        text = f.read()
+    stem = jname.replace(" ", "_")
+    try:
+        with open(os.path.join(out, stem + ".puml")) as f:
+            text = f.read()
+    except OSError as e:
+        return {"status": "exc", "exc": "no diagram file: " + str(e)[-80:]}
     return {"status": "ok", "text": text,
-            "model": os.path.join(out, "x_model.json")}
+            "model": os.path.join(out, stem + "_model.json")}
 
 
 def check_def(defn, tier):
     impl_pv.imports()
+    jname = job_name_of(defn)
     from tel2puml.events import load_events_from_file
     st = semantics.Stats()
     jobs = semantics.executions(defn, 2, st)
@@ -138,7 +152,7 @@ def check_def(defn, tier):
              "states": set()}
     try:
         allpv = present.present(jobs)
-        one = run_transition(workdir, "oneshot", allpv, None)
+        one = run_transition(workdir, "oneshot", allpv, None, jname)
         stats["transitions"] += 1
         fp_one = one["status"] if one["status"] != "ok" else \
             pvcommon.fingerprint(one["text"])
@@ -159,14 +173,15 @@ def check_def(defn, tier):
                     # re-delivery of the same jobs under new ids)
                     pv = [present.to_pv(jobs[i], f"h{hi}c{ci}j{i}")
                           for i in chunk]
-                    last = run_transition(workdir, f"h{hi}_{ci}", pv, model)
+                    last = run_transition(workdir, f"h{hi}_{ci}", pv, model,
+                                          jname)
                     stats["transitions"] += 1
                     if last["status"] == "ok":
                         got = model_file_value(last["model"])
                         ref = semantics.model_of_jobs(
                             pvcommon.with_dummy_start(
                                 [jobs[i] for c in prefix for i in c]))
-                        if got is None or got[0] != "x" or got[1] != ref:
+                        if got is None or got[0] != jname or got[1] != ref:
                             last["model_problem"] = "saved model differs " \
                                 "from the reference model of the chunks so far"
                         else:
